@@ -143,6 +143,31 @@ Definition chk (c : list leaf * list nfilt * option (list (list bool)) * option 
 '''
 
 
+def pyden(f, l):
+  """what a filter means for a leaf, written independently of flax and of the Coq model"""
+  if 'type' in f or 'oftype' in f:
+    return f.get('type', f.get('oftype')) in TYPE_MRO[l['type']] + LEAF_EXTRA
+  if 'tag' in f or 'wtag' in f:
+    return l['tag'] is not None and l['tag'] == f.get('tag', f.get('wtag'))
+  if 'pc' in f:
+    return f['pc'] in l['path']
+  if 'pin' in f:
+    return l['path'] in f['pin']
+  if 'any' in f or 'seq' in f:
+    return any(pyden(g, l) for g in f.get('any', f.get('seq')))
+  if 'all' in f:
+    return all(pyden(g, l) for g in f['all'])
+  if 'not' in f:
+    return not pyden(f['not'], l)
+  if 'bool' in f:
+    return f['bool']
+  if 'ellipsis' in f:
+    return True
+  if 'none' in f:
+    return False
+  raise ValueError(f)
+
+
 def okv(o):
   return o.get('ok') if isinstance(o, dict) and 'ok' in o else None
 
@@ -166,6 +191,12 @@ def check(chk, payload, obs):
     # ---- implementation-only oracles: first-match partition that loses / duplicates nothing
     den = okv(o['denote'])
     raw = okv(o['_split_state'])
+    if den is not None:
+      want_den = [[pyden(f, l) for l in leaves_sorted] for f in fs]
+      if den != want_den:
+        i = [k for k in range(len(fs)) if den[k] != want_den[k]][0]
+        chk.violation('oracle', 'the predicate to_predicate builds for a filter is not its Boolean meaning (type / tag / path tests combined by Any, All, Not; a sequence is Any of its '
+                      'members, nested sequences keep their grouping)', {'filter': fs[i], 'leaves': leaves_sorted, 'observed': den[i], 'expected': want_den[i]})
     if den is not None and raw is not None:
       want = [[] for _ in range(len(fs) + 1)]
       for j, lid in enumerate(order):
